@@ -65,13 +65,13 @@ CLAIMED = {
    technique='Lean 4 theorems over the grouping and accessor models + oracle over real object graphs + differential correspondence',
    design='§7 C03'),
  'C09': dict(
-   text='Theorems: the real loop of _group_matching computes exactly the textbook frame-stack matcher for every class/pattern/token list (balanced or not) and never raises; created groups start with their opener and end with their closer; brackets_final_total — for every flat statement the bracket/block groups of the final tree are those after the six matching passes: same classes in the same order, same leaves (up to Wildcard→Operator), followed only by comment/whitespace leaves (what align_comments attaches: one Comment group after whitespace); delimiters_kept_leafwise under the decidable DelimSafe. Tie: S-TREE, S-GROUP (pass by pass); oracle: independent reference matcher on the real trees.',
+   text='Theorems: the real loop of _group_matching computes exactly the textbook frame-stack matcher for every class/pattern/token list (balanced or not) and never raises; created groups start with their opener and end with their closer; brackets_final_total — for every flat statement the bracket/block groups of the final tree are those after the six matching passes: same classes in the same order, same leaves (up to Wildcard→Operator), followed only by comment/whitespace leaves (what align_comments attaches: one Comment group after whitespace); delimiters_kept_leafwise and delimiters_kept_childwise under the decidable DelimSafe (opener is the first child and closer the last child before trailing comments in the FINAL tree; SqlProofs/DelimChild, one invariant through all later passes). Tie: S-TREE, S-GROUP (pass by pass); oracle: independent reference matcher on the real trees.',
    note='The property is read on the leaf sequence of a node: a later pass may wrap the delimiter of the enclosing group into a child ( "(x as)" ), never move it or put a non-comment leaf behind it.',
    technique='Lean 4 refinement proof (loop invariant relating index arithmetic to a frame stack) + rewrite-step invariant over the later passes + independent reference matcher as oracle',
    design='§7 C09'),
  'C07': dict(
-   text='Theorems: lexSplit_total/split_total (lexer+splitter never fail), grouping_total (the 25 passes return or fail with RecursionError only), validate_total over the regenerated option table, validate_before_format, accessor totality, and totality of every statement filter on a decidable domain (FilterSafe.*): strip_comments and use_space_around_operators on every tree, strip_whitespace / reindent / reindent_aligned on their domains, a whole filter stack stagewise (statement_filter_stack_total). Escaping exceptions on the real code are classified through the driver by the Lean predicate of the raising stage (DOMAIN(filtersafe)). Oracle: arbitrary text x option sets x all accessors on every node.',
-   note='Partial: that grouped trees of arbitrary junk lie inside FilterSafe.reindent/aligned is explored. Five genuine defects repaired (618d66d, 80aaf5c, 0de99dc, 4e9e704, e93eb2e).',
+   text='Theorems: lexSplit_total/split_total (lexer+splitter never fail), grouping_total (the 25 passes return or fail with RecursionError only), validate_total over the regenerated option table, validate_before_format, accessor totality, and totality of every statement filter on a decidable domain (FilterSafe.*): strip_comments and use_space_around_operators on every tree, strip_whitespace / reindent / reindent_aligned on their domains, a whole filter stack stagewise (statement_filter_stack_total); strip_whitespace_total_of_delimSafe / aligned_total_of_delimSafe discharge the domain hypothesis of these two filters from a decidable hypothesis on the TOKENS (DelimSafe). Escaping exceptions on the real code are classified through the driver by the Lean predicate of the raising stage (DOMAIN(filtersafe)). Oracle: arbitrary text x option sets x all accessors on every node.',
+   note='Partial: that grouped trees lie inside FilterSafe.reindent is explored (stripws/aligned: proved under DelimSafe). Six genuine defects repaired (618d66d, 80aaf5c, 0de99dc, 4e9e704, e93eb2e, e5826ed).',
    technique='Lean 4 theorems (index-range invariants per pass, interpreter of the regenerated option table, accessor totality) + exploration of exceptions on the real code',
    design='§7 C07'),
  'C11': dict(
